@@ -750,3 +750,9 @@ func scaledFam(f family, exp int) family {
 	g.gen = func(r, c int) M { return f.gen(r, c).scale(pow2(exp)) }
 	return g
 }
+
+// oppositeSigns reports b*c < 0 without forming the product (which underflows
+// or overflows for entries beyond 2^+-512).
+func oppositeSigns(b, c float64) bool {
+	return (b > 0 && c < 0) || (b < 0 && c > 0)
+}
